@@ -1,4 +1,115 @@
+/-
+  C05 — including a file is the same as typing its lines in place.
+
+  Model: `Crs.Parser.parseLines` (include branch), `parseFile`, `wrapInclude` (parser.go: parseFile,
+  mergePrefixesSuffixes; include_except_builder.go: buildIncludeString).
+-/
 import Crs.Parser
+import CrsProofs.Lines
 namespace Crs.Props
-theorem C05_placeholder : True := trivial
+open Crs Crs.Pat Crs.Parser
+
+/-- a line that is no directive of the parser: blank, comment, or a regular entry -/
+def PlainLine (line : Bytes) : Prop :=
+  let t := trimLeftSpTab line
+  isBlank t = true ∨ comment? t = true ∨
+    (definition? t = none ∧ include? t = none ∧ includeExcept? t = none ∧ flags? t = none ∧ prefix? t = none ∧ suffix? t = none)
+
+/-- what plain lines contribute: every regular line, left-trimmed, with `\n` -/
+def plainOut : List Bytes → Bytes
+  | [] => []
+  | l :: ls =>
+    let t := trimLeftSpTab l
+    (if isBlank t || comment? t then [] else t ++ ['\n']) ++ plainOut ls
+
+/-- typing plain lines: they are appended to the text, nothing else of the parser state changes -/
+theorem parseLines_plain (fs : Fs) (o1 o2 : Ord) (fuel : Nat) (st : PState) (ls rest : List Bytes)
+    (h : ∀ l ∈ ls, PlainLine l) :
+    parseLines fs o1 o2 fuel st (ls ++ rest) = parseLines fs o1 o2 fuel { st with out := st.out ++ plainOut ls } rest := by
+  induction ls generalizing st with
+  | nil => simp [plainOut]
+  | cons l ls ih =>
+    have hl := h l (by simp)
+    have hrest : ∀ x ∈ ls, PlainLine x := fun x hx => h x (by simp [hx])
+    simp only [List.cons_append, parseLines, plainOut]
+    unfold PlainLine at hl
+    simp only at hl
+    by_cases hb : isBlank (trimLeftSpTab l) = true
+    · simp only [hb, if_true, Bool.true_or, List.nil_append]
+      exact ih st hrest
+    · by_cases hc : comment? (trimLeftSpTab l) = true
+      · simp only [hb, hc, if_true, Bool.or_true, Bool.false_eq_true, if_false, List.nil_append]
+        exact ih st hrest
+      · have hreg := hl.resolve_left hb |>.resolve_left hc
+        obtain ⟨h1, h2, h3, h4, h5, h6⟩ := hreg
+        simp only [hb, hc, Bool.false_eq_true, if_false, h1, h2, h3, h4, h5, h6, Bool.or_self]
+        rw [ih _ hrest]
+        simp [List.append_assoc]
+
+/-- **C05 (plain include).** `##!> include F` for a file of plain lines (entries, comments, blank lines, any
+    indentation), found in the include or exclude directory, parses exactly like the lines of `F` typed at that
+    position — for every parser state before and every continuation after it. -/
+theorem C05_plain_include (fs : Fs) (o1 o2 : Ord) (fuel : Nat) (st : PState) (line : Bytes) (name contents : Bytes)
+    (rest : List Bytes)
+    (hnb : isBlank (trimLeftSpTab line) = false) (hnc : comment? (trimLeftSpTab line) = false)
+    (hnd : definition? (trimLeftSpTab line) = none)
+    (hinc : include? (trimLeftSpTab line) = some (name, []))
+    (hfile : fs.find name = some contents)
+    (hplain : ∀ l ∈ scanLines contents, PlainLine l) :
+    parseLines fs o1 o2 (fuel + 1) st (line :: rest) = parseLines fs o1 o2 (fuel + 1) st (scanLines contents ++ rest) := by
+  rw [parseLines_plain fs o1 o2 (fuel + 1) st (scanLines contents) rest hplain]
+  simp only [parseLines, hnb, hnc, hnd, hinc, Bool.false_eq_true, if_false]
+  have hbp : buildPairs [] = some [] := by decide
+  simp only [hbp, parseFile, hfile, parse]
+  have hp := parseLines_plain fs o1 o2 fuel { vars := [] } (scanLines contents) [] hplain
+  simp only [List.append_nil] at hp
+  rw [hp]
+  simp [parseLines, wrapInclude, replaceSuffixes, expandDefinitions]
+
+/-- **C05 (flags rejected).** An include file whose parse ends with a non-empty flag set is an error, not a merge. -/
+theorem C05_flags_rejected (fs : Fs) (o1 o2 : Ord) (fuel : Nat) (name contents : Bytes) (defs : Vars) (stF : PState)
+    (hfile : fs.find name = some contents) (hparse : parse fs o1 o2 fuel defs contents = .ok stF) (hfl : stF.flags ≠ []) :
+    parseFile fs o1 o2 fuel name defs = .error .diag := by
+  simp only [parseFile, hfile, hparse]
+  have : stF.flags.isEmpty = false := by cases h : stF.flags with | nil => exact absurd h hfl | cons _ _ => rfl
+  simp [this]
+
+/-- **C05 (scoped prefixes/suffixes).** The text an include file with prefixes and/or suffixes contributes is one
+    local assemble block: `##!> assemble`, each prefix followed by a concatenation marker, the file's own entries,
+    a marker and each suffix followed by a marker, `##!<` — so they bind only the file's own entries. Without
+    prefixes and suffixes the entries are contributed bare (no block). -/
+theorem C05_scoped_affixes (p : PState) :
+    wrapInclude p =
+      if p.prefixes.isEmpty && p.suffixes.isEmpty then p.out
+      else b!"##!> assemble\n" ++ (p.prefixes.map (· ++ b!"\n##!=>\n")).flatten ++ p.out ++
+        (if p.suffixes.isEmpty then [] else b!"##!=>\n") ++ (p.suffixes.map (· ++ b!"\n##!=>\n")).flatten ++ b!"##!<\n" := rfl
+
+/-- **C05 (definitions do not leak).** After an include line the including file's definitions, flags, prefixes and
+    suffixes are what they were: only text is contributed. -/
+theorem C05_no_leak (fs : Fs) (o1 o2 : Ord) (fuel : Nat) (st st' : PState) (line name repl : Bytes)
+    (hnb : isBlank (trimLeftSpTab line) = false) (hnc : comment? (trimLeftSpTab line) = false)
+    (hnd : definition? (trimLeftSpTab line) = none)
+    (hinc : include? (trimLeftSpTab line) = some (name, repl))
+    (h : parseLines fs o1 o2 fuel st [line] = .ok st') :
+    st'.vars = st.vars ∧ st'.flags = st.flags ∧ st'.prefixes = st.prefixes ∧ st'.suffixes = st.suffixes := by
+  simp only [parseLines, hnb, hnc, hnd, hinc, Bool.false_eq_true, if_false] at h
+  split at h
+  · simp at h
+  · split at h
+    · simp at h
+    · simp only [Except.ok.injEq] at h
+      subst h
+      exact ⟨rfl, rfl, rfl, rfl⟩
+
+/-- non-vacuity: the hypotheses of `C05_plain_include` hold for an include of a word list with a comment, a blank
+    line and indentation -/
+def exampleFs : Fs := { inc := [("words.ra".toList, "  foo\n##! c\n\nbar\n".toList)] }
+instance (l : Bytes) : Decidable (PlainLine l) := by unfold PlainLine; infer_instance
+example :
+    include? (trimLeftSpTab "  ##!> include words".toList) = some ("words".toList, []) ∧
+    exampleFs.find "words".toList = some "  foo\n##! c\n\nbar\n".toList ∧
+    (∀ l ∈ scanLines "  foo\n##! c\n\nbar\n".toList, PlainLine l) ∧
+    plainOut (scanLines "  foo\n##! c\n\nbar\n".toList) = "foo\nbar\n".toList := by
+  decide
+
 end Crs.Props
